@@ -11,6 +11,10 @@
 #include <inttypes.h>
 #include "qlibc.h"
 #include "vfc.h"
+/* the print helpers (debug()) run on real contents now and then: C11 covers what they read */
+static FILE *DEVNULL; static unsigned long DBGCTR;
+#define DEBUG_NOW() (((++DBGCTR) % 61) == 0 && (DEVNULL || (DEVNULL = fopen("/dev/null", "w"))))
+
 #include "ref_hash.h"
 
 static rng_t R;
@@ -120,7 +124,11 @@ out:
     return shape;
 }
 
+
+/* optional out-parameters are NULL in one call out of four; the variable is preset to what the callee would have stored */
+static size_t *optout(size_t *p, size_t expect) { if (rng_chance(&R, 1, 4)) { *p = expect; vf_count("calls_with_null_out_parameter", 1); return NULL; } return p; }
 static void content_check(void) {
+    if (DEBUG_NOW()) { T->debug(T, DEVNULL); vf_count("debug_prints", 1); }
     vf_count("content_compares", 1);
     if (T->size(T) != (size_t)MN) { judge("C05", "size", "size()=%zu model=%d", T->size(T), MN); return; }
     for (int id = 0; id < NU; id++) {
@@ -192,7 +200,7 @@ static void op_get(int id) {
     cbuf_t kb = cb_make(UK[id], strlen(UK[id]) + 1, P == 11 && rng_chance(&R, 1, 2));
     size_t sz = 999; void *d; errno = 0;
     vf_log("get[%d,newmem=%d] k%d", api, newmem, id);
-    if (api == 0) d = T->get(T, (char *)kb.p, &sz, newmem);
+    if (api == 0) d = T->get(T, (char *)kb.p, optout(&sz, MP[id] ? MVL[id] : sz), newmem);
     else { d = T->getstr(T, (char *)kb.p, newmem); sz = d ? strlen(d) + 1 : 0; }
     int e = errno;
     cb_drop(&kb);
